@@ -23,18 +23,29 @@ Verdict(C) ==
   IF ~wf THEN {"Precond:WellFormed"}
   ELSE IF ~(VertexOrigin(Mc, Mf, par, fam) /\ CellsHaveParents(Mc, Mf, par, dim) /\ ParentsValid(Mc, Mf, par, fam, dim))
     THEN {"Precond:RefinementOrigin"}
-  ELSE IF ~HasNodal(el, fam, dim) THEN {"MACHINERY:FamilyNotExact"}
+  ELSE IF ~Supported(el, fam, dim) THEN {"MACHINERY:Unsupported"}
   ELSE
-    LET T == TLCEval(FamilyTable(el, fam, dim))
-        sig == T.sig
+    LET sig == Sig(el, fam, dim)
         Gc == DofTable(Mc, sig, fam, dim)
         Gf == DofTable(Mf, sig, fam, dim)
         ngc == NumGlobalDofs(Mc, sig, dim)
         ngf == NumGlobalDofs(Mf, sig, dim)
         mapsOK == C.gc = Gc /\ C.gf = Gf /\ C.ngc = ngc /\ C.ngf = ngf
+        nested == Nested(el, fam)
+        \* properties judged for every family (projections computed by the harness with its own inverse mapping / dense algebra)
+        common == UNION {
+           Fail(nested => (C.fn.n > 0 /\ C.fn.bad = 0 /\ C.fn.orphan = 0), "ProlExactFunction"),
+           Fail(C.rbit, "RestBitwise"),
+           Fail(nested => (~C.tnoise /\ IsIdentity(C.TP, 1)), "TruncLeftInverse") }
     IN
     IF ~mapsOK THEN Fail(C.gc = Gc, "DofMapCoarse") \cup Fail(C.gf = Gf, "DofMapFine") \cup Fail(C.ngc = ngc /\ C.ngf = ngf, "NumDofs")
-    ELSE IF ~NodesIntegral(Mc, Mf, par, T) THEN {"MACHINERY:NodesIntegral"}
+    ELSE IF C.intmode # HasNodal(el, fam, dim) THEN {"MACHINERY:Mode"}
+    ELSE IF ~C.intmode THEN
+      \* families without exact tables (Lagrange-3, Bernstein-2): function-level exactness + float-level agreement of the operators
+      common \cup Fail(C.vdev_ok, "VectorProlAgrees") \cup Fail(C.rdev_ok, "TransferRestAgrees") \cup Fail(C.nnz > 0, "ProlNonTrivial")
+    ELSE
+    LET T == TLCEval(FamilyTable(el, fam, dim)) IN
+    IF ~NodesIntegral(Mc, Mf, par, T) THEN {"MACHINERY:NodesIntegral"}
     ELSE IF C.ps % LocalScale(T) # 0 THEN {"MACHINERY:Scale"}
     ELSE IF Len(C.P) # ngf \/ Len(C.x) # ngc \/ Len(C.y) # ngf THEN {"MACHINERY:Sizes"}
     ELSE
@@ -43,7 +54,6 @@ Verdict(C) ==
           ls == LocalScale(T)
           k == C.ps \div ls
           h1 == Conformity(el) \in {"H1", "C1"}
-          nested == Nested(el, fam)
           WD == TLCEval([i \in 1..ngf |-> ProlWellDefined(OCC[i], NUM, Gc, par, dim)])
           ROWS == TLCEval([i \in 1..ngf |-> SpecRow(OCC[i], NUM, Gc, par, dim, WD[i])])
           vecOK(v) == Len(v) = ngf /\ \A i \in 1..ngf : v[i] * ROWS[i].den = RowTimes(ROWS[i], C.x) * k
@@ -51,18 +61,16 @@ Verdict(C) ==
           transOK == IsTranspose(C.R, C.P)
           \* Transfer::rest(y) = R y; R is judged against P^T, P against the specification
           restOK == Len(C.ry) = ngc /\ Len(C.R) = ngc /\ \A j \in 1..ngc : C.ry[j] = RowDot(C.R[j], C.y)
-      IN UNION {
+      IN common \cup UNION {
            Fail(h1 => \A i \in 1..ngf : WD[i], "ProlWellDefined"),
            Fail(~C.pnoise, "ProlNoise"),
            Fail(prolOK, "ProlExact"),
            Fail(transOK, "RestIsTranspose"),
-           Fail(C.rbit, "RestBitwise"),
-           Fail(nested => (~C.tnoise /\ IsIdentity(C.TP, 1)), "TruncLeftInverse"),
            Fail(~C.vnoise /\ vecOK(C.pxv), "VectorProlAgrees"),
            Fail(~C.xnoise /\ vecOK(C.pxt), "TransferProlAgrees"),
            Fail(~C.rnoise /\ restOK, "TransferRestAgrees") }
 
 Info(C) == [nc |-> C.levels[1].n[C.dim + 1], nf |-> C.levels[2].n[C.dim + 1], ngc |-> C.ngc, ngf |-> C.ngf,
-            nnz |-> Cardinality(Triples(C.P))]
+            nnz |-> C.nnz]
 Emit == LET C == Cases[ci] IN PrintT(ToJson([id |-> C.id, fails |-> SetToSeq(Verdict(C)), info |-> Info(C)]))
 =============================================================================
